@@ -213,3 +213,16 @@ Proof.
   assert (ver_delta M (fst c) o = 0) as D by lia.
   destruct (version_guards_values M (fst c) o ND D) as (A1 & _ & A3). split; auto.
 Qed.
+
+(* the container-side check CheckIterator -> VersionKeeper::Check(const size_t* version, bool allowEmpty): a default-constructed
+   (empty) iterator is accepted iff allowEmpty; otherwise the iterator must point at THIS container's counter and hold its value *)
+Theorem gen_version_check_cont (mem : Z -> Z) ptr ver version (allowEmpty : bool) : version <> 0 ->
+  Gen_VersionCheck.Check_cont mem ptr ver version allowEmpty =
+  if allowEmpty && (ptr =? 0) then Ok tt
+  else if (ptr =? version) && (ver =? mem version) then Ok tt else Exn.
+Proof.
+  intros H. unfold Gen_VersionCheck.Check_cont, Gen_VersionCheck.checkMode.
+  destruct (Z.eqb_spec version 0); [contradiction|]. simpl.
+  destruct (allowEmpty && (ptr =? 0)); [reflexivity|].
+  destruct ((ptr =? version) && (ver =? mem version)); reflexivity.
+Qed.
